@@ -145,7 +145,9 @@ func c18Forward(c *fw.Ctx, t *lib.Tree, kind string, a []byte, tag string) bool 
 			continue
 		}
 		c.Eval(1)
-		if ch.HasLink("application/x-tar", ".tar") {
+		// "reported as application/x-tar": the reported type itself, not merely an ancestor
+		// (a sub-format of tar that captures ordinary archives is another type)
+		if lf := ch.Leaf(); lf.T == "application/x-tar" && lf.Ext == ".tar" {
 			c.Count("archives_reported_as_tar", 1)
 			continue
 		}
@@ -254,7 +256,7 @@ func c18Run(c *fw.Ctx, b fw.Batch) {
 		ch := lib.ChainOf(lib.Detect(a, 3072))
 		c.Eval(1)
 		c.Count("known_finding_regression_input_replayed", 1)
-		if !ch.HasLink("application/x-tar", ".tar") {
+		if lf := ch.Leaf(); lf.T != "application/x-tar" || lf.Ext != ".tar" {
 			c.Violate("tar-not-recognised", fw.InputKey(a, 3072, "Detect"), fmt.Sprintf("USTAR archive whose first member is named pkg/gpkg-1 reported as %s (deliberate Gentoo gpkg exclusion)", ch), c18Payload{Kind: "known-gpkg", In: a, Limit: 3072, Pos: -1})
 		}
 		return
